@@ -185,7 +185,7 @@ def ops_of(e, out=None):
     return out
 
 
-consts = st.one_of(st.integers(0, 9), st.sampled_from([0, 1, 2, 3, 7, 31, 32, 255, 65535, 2 ** 31 - 1, 1000000]))
+consts = st.one_of(st.integers(0, 9), st.sampled_from([0, 1, 1, 2, 3, 7, 31, 32, 33, 255, 65535, 2 ** 31 - 1, 2 ** 31 - 2, 1000000]))
 leaves = st.one_of(consts.map(lambda n: ('c', n)), st.sampled_from(['a', 'b', 'c']).map(lambda v: ('v', v)),
                    st.sampled_from(['f', 'g']).map(lambda f: ('fld', 'cv', f)))
 
@@ -380,6 +380,31 @@ def shard_main(ctx):
     n = ctx.nshards
     if ctx.shard == 0:
         ctx.replay_corpus(sys.modules[__name__])
+    # bounded exhaustive core: every binary operator on every pair of boundary operands (negative values written as -n, the
+    # smallest int as -2147483647 - 1), and both unary operators on every boundary operand
+    def lit(v):
+        if v >= 0:
+            return ('c', v)
+        if v == INT_MIN:
+            return ('-', ('neg', ('c', INT_MAX)), ('c', 1))
+        return ('neg', ('c', -v))
+    bnd = [INT_MIN, INT_MIN + 1, -65536, -256, -33, -32, -31, -3, -2, -1, 0, 1, 2, 3, 31, 32, 33, 255, 65535, INT_MAX - 1, INT_MAX]
+    k = 0
+    try:
+        for op in sorted(PREC):
+            for l in bnd:
+                for r in bnd:
+                    k += 1
+                    if k % n == ctx.shard:
+                        check_expr(ctx, (op, lit(l), lit(r)))
+        for op in ('neg', 'not'):
+            for v in bnd:
+                k += 1
+                if k % n == ctx.shard:
+                    check_expr(ctx, (op, lit(v)))
+    except Failure as f:
+        ctx.failures.append({"kind": f.kind, "detail": f.detail, "case": {"expr": repr((op, l, r)) if op in PREC else repr((op, v)), "boundary": True}})
+        return
     ctx.run_hypothesis([exprs(3)], lambda e: check_expr(ctx, e), p["exprs"] // n + 1,
                        lambda e: {"expr": repr(e), "minimal": pr_min(e), "full": pr_full(e)}, name="expr")
     ctx.run_hypothesis([assign_s], lambda s: check_seq(ctx, s), p["seqs"] // n + 1, lambda s: {"seq": repr(s)}, name="seq")
